@@ -44,13 +44,19 @@ def remove_unused_self_cls(source: str) -> str:
     }
 
     for classdef in parsing.iter_classdefs(root):
-        # Methods that the class body reads by name are handed to something, like property(getter)
-        read_in_class_body = {
-            name.id
-            for node in classdef.body
-            if not isinstance(node, (ast.FunctionDef, ast.AsyncFunctionDef))
-            for name in core.walk(node, ast.Name(ctx=ast.Load))
-        }
+        # Methods that the class body reads by name are called there as plain functions, or handed
+        # to something, like property(getter). The class body also evaluates the decorators, the
+        # default values and the annotations of its methods (not their bodies).
+        read_in_class_body = set()
+        for node in classdef.body:
+            if isinstance(node, (ast.FunctionDef, ast.AsyncFunctionDef)):
+                parts = [*node.decorator_list, node.args, node.returns]
+            else:
+                parts = [node]
+            for part in filter(None, parts):
+                read_in_class_body.update(
+                    name.id for name in core.walk(part, ast.Name(ctx=ast.Load))
+                )
         class_non_instance_methods = {
             funcdef.name
             for funcdef in parsing.iter_funcdefs(classdef)
